@@ -341,7 +341,58 @@ def check_jsonld(terms, ctx=None):
     return fails
 
 
-RDF_BINDINGS = [("", "http://d/"), ("a", "http://x/"), ("b", "http://y#")]
+RDF_BINDINGS = [("", "http://d/"), ("a", "http://x/"), ("b", "http://y#"), ("ns1", "http://n1/"), ("ns2", "http://n2#"), ("default1", "http://dd/")]   # names rdflib itself would generate are ordinary names when the user binds them
+
+
+def check_jsonld_raw(items, ctx=None):
+    """items: explicit (key, value) pairs of a context; denotation by the rule: non-empty key not starting with '@' whose value is a
+    string (or a dict with @prefix true) is a prefix definition; everything else is skipped."""
+    fails = []
+    denot = []
+    for key, value in items:
+        if key and not key.startswith("@"):
+            if isinstance(value, str):
+                denot.append(mrec(key, value))
+            elif isinstance(value, dict) and value.get("@prefix") is True:
+                denot.append(mrec(key, value["@id"]))
+    model = Model(denot, ":")
+    if not model.valid():
+        return fails
+    where = f"from_jsonld({{'@context': {dict(items)!r}}})"
+    for perm in it.permutations(items):
+        data = {"@context": dict(perm)}
+        try:
+            conv = Converter.from_jsonld(data)
+        except Exception as e:  # noqa
+            return [(f"from_jsonld/raises/{type(e).__name__}", f"{where}: {type(e).__name__}: {e}")]
+        if record_set(conv) != model.record_set():
+            got = {r.prefix for r in conv.records}
+            want = {r.prefix for r in model.records}
+            kind = "ignorable-term-taken" if got - want else "valid-term-dropped" if want - got else "records-differ"
+            return [(f"from_jsonld/{kind}", f"{where}: prefixes {sorted(got)}, denotation {sorted(want)}")]
+        file_variants(curies.load_jsonld_context, data, conv, fails, where, "from_jsonld", ctx)
+        if ctx is not None:
+            ctx.count("transitions")
+    return fails
+
+
+def token_cases():
+    """Breadth sweep (mc/sweeps.py): every token inside and as the whole of a prefix / URI prefix, through every loader."""
+    from .. import sweeps
+
+    out = []
+    for t in sweeps.TOKENS:
+        tp = "" if ":" in t else t
+        two = [("p" + tp, "u" + t + "/"), ("r" + tp, "w" + t)]
+        exact = [("k", t), ("r", "w/")]
+        out += [("prefix_map", two), ("prefix_map", exact), ("upgrade", two), ("upgrade", exact)]
+        out += [("reverse", [("u" + t + "/", "p" + tp), ("v" + t, "p" + tp), ("w" + t, "r" + tp)]), ("reverse", [(t, "k"), ("w/", "r")])]
+        out += [("priority", [("p" + tp, ("u" + t + "/", "v" + t)), ("r" + tp, ("w" + t,))]), ("priority", [("k", (t, "w/"))]), ("priority", [("k", ("w/", t))])]
+        out += [("jsonld-raw", two), ("jsonld-raw", exact), ("jsonld-raw", [("k", {"@id": t, "@prefix": True}), ("@" + t, "w/")])]
+        if ":" not in t:
+            out += [("prefix_map", [(t, "u/"), ("r", "w/")]), ("reverse", [("u/", t)]), ("priority", [(t, ("u/", "v/"))]), ("jsonld-raw", [(t, "u/"), ("r", "w/")])]
+    return out
+
 
 
 def check_rdflib(subset, ctx=None):
@@ -389,8 +440,9 @@ def units(tier, seed):
         us.extend({"kind": kind, "part": i, "of": 4, "nkeys": 4, "tier": tier, "ws": True} for i in range(4))
         us.extend({"kind": kind, "part": i, "of": 2, "nkeys": 4, "tier": tier, "cross": True} for i in range(2))
     us.extend({"kind": "jsonld", "part": i, "of": 32, "tier": tier} for i in range(32))
-    us.append({"kind": "rdflib"})
+    us.extend({"kind": "rdflib", "part": i, "of": 4} for i in range(4))
     us.append({"kind": "paths"})
+    us.extend({"kind": "tokens", "part": i, "of": 16} for i in range(16))
     return us
 
 
@@ -400,6 +452,8 @@ WS_U = ["x", "x ", "\tx", "x\u00a0"]
 
 def cases(unit):
     kind = unit["kind"]
+    if kind == "tokens":
+        return token_cases()
     if unit.get("cross"):   # CURIE prefixes and URI prefixes are separate name spaces: the same string may occur on both sides
         CP, CU = ["a", "x", "b"], ["x", "a", "b"]
         if kind in ("prefix_map", "upgrade"):
@@ -448,7 +502,7 @@ def cases(unit):
 
 
 CHECKS = {"prefix_map": check_prefix_map, "upgrade": check_upgrade, "priority": check_priority, "reverse": check_reverse,
-          "jsonld": check_jsonld, "rdflib": check_rdflib}
+          "jsonld": check_jsonld, "rdflib": check_rdflib, "jsonld-raw": check_jsonld_raw}
 
 
 def run_unit(unit, ctx):
